@@ -1005,3 +1005,466 @@ Proof.
   - destruct (build_unchecked b) as [a|]; [|discriminate]. inversion H; subst. eauto.
   - apply compile_go_none in E. lia.
 Qed.
+
+(* ------------------------------------------------------------------------------------------ *)
+(** * compile_with_bound runs the iterator's BFS *)
+
+Lemma push_all_derivs_app r c1 : forall c2 m q s,
+  push_all_derivs m r (c1 ++ c2) q s =
+  match push_all_derivs m r c1 q s with
+  | Some (m1, q1, s1) => push_all_derivs m1 r c2 q1 s1
+  | None => None
+  end.
+Proof.
+  induction c1 as [|c t IH]; intros c2 m q s; cbn [app push_all_derivs]; [reflexivity|].
+  destruct (cached_deriv r m c) as [[m1 d]|]; cbn [bind]; [|reflexivity].
+  destruct (existsb (re_eqb d) s); apply IH.
+Qed.
+
+(* set_derivative_unchecked(e, i-th interval of e's classes) = class derivative w.r.t. Interval(i) *)
+Lemma pclass_of_set_own p j set :
+  pwf p -> nth_error (ivs p) j = Some set -> pclass_of_set p set = Some (Some (CInt j)).
+Proof.
+  intros Hp Hn. pose proof (pwf_sorted p Hp) as Hs.
+  pose proof (sorted_nth_valid _ _ _ Hs Hn) as Hv.
+  destruct (c11_class_of_set p set Hp Hv) as [r [Hr [Hi _]]]. rewrite Hr. f_equal.
+  apply Hi. exists set. split; auto.
+Qed.
+
+Definition drop_builder (x : mgr * list re * list re * builder) : mgr * list re * list re :=
+  match x with (m, q, s, _) => (m, q, s) end.
+
+Lemma compile_ranges_push e : forall sets i m q s b,
+  (forall j set, nth_error sets j = Some set -> pclass_of_set (rcls e) set = Some (Some (CInt (i + j)))) ->
+  option_map drop_builder (compile_ranges m e sets i q s b) =
+  push_all_derivs m e (map CInt (seq i (length sets))) q s.
+Proof.
+  induction sets as [|set t IH]; intros i m q s b H; [reflexivity|].
+  rewrite compile_ranges_unfold. cbn [length seq map push_all_derivs].
+  rewrite (H 0 set eq_refl), Nat.add_0_r.
+  destruct (cached_deriv e m (CInt i)) as [[m1 d]|]; cbn [bind]; [|reflexivity].
+  rewrite IH.
+  - unfold cpush. destruct (existsb (re_eqb d) s); reflexivity.
+  - intros j set' Hj. rewrite (H (S j) set' Hj). do 3 f_equal. lia.
+Qed.
+
+Lemma compile_step_push m e q s b : pwf (rcls e) ->
+  option_map drop_builder (compile_step m e q s b) = push_all_derivs m e (pclass_ids (rcls e)) q s.
+Proof.
+  intros Hp. unfold pclass_ids. rewrite push_all_derivs_app.
+  unfold plen. rewrite <- (compile_ranges_push e (ivs (rcls e)) 0 m q s b).
+  2:{ intros j set Hj. apply pclass_of_set_own; auto. }
+  unfold compile_step.
+  destruct (compile_ranges m e (ivs (rcls e)) 0 q s b) as [[[[m1 q1] s1] b1]|]; [|reflexivity].
+  cbn [option_map drop_builder]. destruct (pempty_complement (rcls e)); [reflexivity|].
+  cbn [push_all_derivs]. destruct (cached_deriv e m1 CComp) as [[m2 d]|]; cbn [bind]; [|reflexivity].
+  unfold cpush. destruct (existsb (re_eqb d) s1); reflexivity.
+Qed.
+
+Definition cls_ok (l : list re) : Prop := Forall (fun r => pwf (rcls r)) l.
+
+(* Both loops completed: same manager, one builder state per yielded term, and the bound is
+   hit exactly when more terms are yielded than allowed. *)
+Lemma compile_go_iter f : forall f' m q s b count mx out x m1 l,
+  compile_go f m q s b count mx = Some x ->
+  iter_go f' m q s out = Some (m1, l) -> cls_ok l ->
+  count = length out -> bfs_inv q s out -> binv b s -> count <= mx ->
+  match x with
+  | (m2, Some b') => m2 = m1 /\ length (bstates b') = length l /\ length l <= mx
+  | (_, None) => mx < length l
+  end.
+Proof.
+  induction f as [|f IH]; intros f' m q s b count mx out x m1 l H Hi Hcl Hc Hbfs Hb Hm; [discriminate|].
+  destruct f' as [|f']; [discriminate|].
+  pose proof (iter_go_prefix _ _ _ _ _ _ _ Hi) as [l' Hl].
+  destruct q as [|e q].
+  - clear Hl. cbn [compile_go] in H. cbn [iter_go] in Hi. inversion H; subst x. inversion Hi; subst m1 l.
+    split; [reflexivity|]. destruct Hb as [K W]. destruct Hbfs as [Hs _]. rewrite W.
+    unfold bkeys in K. rewrite <- (map_length fst), K, rev_length, map_length, Hs, rev_length, app_nil_r. lia.
+  - rewrite compile_go_unfold in H. cbn [iter_go] in Hi.
+    destruct (Nat.eqb count mx) eqn:Ec.
+    + apply Nat.eqb_eq in Ec. inversion H; subst x. rewrite Hl, !app_length. cbn [length]. lia.
+    + apply Nat.eqb_neq in Ec.
+      assert (Hp : pwf (rcls e)).
+      { unfold cls_ok in Hcl. rewrite Forall_forall in Hcl. apply Hcl. rewrite Hl.
+        apply in_or_app. right. left. reflexivity. }
+      pose proof (compile_step_push m e q s b Hp) as P.
+      destruct (compile_step m e q s b) as [[[[m2 q2] s2] b2]|] eqn:E; [|discriminate].
+      cbn [option_map drop_builder] in P. rewrite <- P in Hi. cbn [bind] in Hi.
+      assert (He : In (rid e) (map rid s)).
+      { destruct Hbfs as [Hs _]. rewrite Hs, map_rev, <- in_rev, map_app. apply in_or_app. right. left. reflexivity. }
+      pose proof (compile_step_struct _ _ _ _ _ _ _ _ _ E He Hb) as [_ Hb2].
+      eapply (IH f' m2 q2 s2 b2 (S count) mx (out ++ [e])); eauto.
+      * rewrite app_length. cbn. lia.
+      * eapply push_all_bfs_inv; eauto.
+      * lia.
+Qed.
+
+(* The enumeration completed => the loop of compile_with_bound completes on the same fuel
+   (none of its unwrap()s panics) and its outcome is decided by the bound. *)
+Lemma compile_go_of_iter f : forall m q s b count mx out m1 l,
+  iter_go f m q s out = Some (m1, l) -> cls_ok l ->
+  count = length out -> bfs_inv q s out -> binv b s -> count <= mx ->
+  if Nat.leb (length l) mx
+  then exists b', compile_go f m q s b count mx = Some (m1, Some b') /\ length (bstates b') = length l
+  else exists m2, compile_go f m q s b count mx = Some (m2, None).
+Proof.
+  induction f as [|f IH]; intros m q s b count mx out m1 l Hi Hcl Hc Hbfs Hb Hm; [discriminate|].
+  pose proof (iter_go_prefix _ _ _ _ _ _ _ Hi) as [l' Hl].
+  destruct q as [|e q].
+  - clear Hl. cbn [compile_go]. cbn [iter_go] in Hi. inversion Hi; subst m1 l.
+    assert (E : Nat.leb (length out) mx = true) by (apply Nat.leb_le; lia). rewrite E.
+    exists b. split; [reflexivity|]. destruct Hb as [K W]. destruct Hbfs as [Hs _]. rewrite W.
+    unfold bkeys in K. rewrite <- (map_length fst), K, rev_length, map_length, Hs, rev_length, app_nil_r. lia.
+  - rewrite compile_go_unfold. cbn [iter_go] in Hi.
+    destruct (Nat.eqb count mx) eqn:Ec.
+    + apply Nat.eqb_eq in Ec.
+      assert (E : Nat.leb (length l) mx = false).
+      { apply Nat.leb_gt. rewrite Hl, !app_length. cbn [length]. lia. }
+      rewrite E. eauto.
+    + apply Nat.eqb_neq in Ec.
+      assert (Hp : pwf (rcls e)).
+      { unfold cls_ok in Hcl. rewrite Forall_forall in Hcl. apply Hcl. rewrite Hl.
+        apply in_or_app. right. left. reflexivity. }
+      pose proof (compile_step_push m e q s b Hp) as P.
+      destruct (push_all_derivs m e (pclass_ids (rcls e)) q s) as [[[m2 q2] s2]|] eqn:Ep; cbn [bind] in Hi; [|discriminate].
+      destruct (compile_step m e q s b) as [[[[m2' q2'] s2'] b2]|] eqn:E; [|discriminate].
+      cbn [option_map drop_builder] in P. inversion P; subst m2' q2' s2'.
+      assert (He : In (rid e) (map rid s)).
+      { destruct Hbfs as [Hs _]. rewrite Hs, map_rev, <- in_rev, map_app. apply in_or_app. right. left. reflexivity. }
+      pose proof (compile_step_struct _ _ _ _ _ _ _ _ _ E He Hb) as [_ Hb2].
+      apply (IH m2 q2 s2 b2 (S count) mx (out ++ [e])); auto.
+      * rewrite app_length. cbn. lia.
+      * eapply push_all_bfs_inv; eauto.
+      * lia.
+Qed.
+
+Theorem compile_states_are_iter fuel fuel' m e m1 l m2 A :
+  iter_derivatives fuel m e = Some (m1, l) -> cls_ok l ->
+  compile_with_bound fuel' m e None = Some (m2, Some A) ->
+  num_states A = length l /\ m2 = m1.
+Proof.
+  intros Hi Hcl H. unfold compile_with_bound in H.
+  destruct (compile_go fuel' m [e] [e] (b_new (rid e)) 0 (S fuel')) as [[m3 [b|]]|] eqn:E; try discriminate.
+  destruct (build_unchecked b) as [a|] eqn:Eb; [|discriminate]. inversion H; subst.
+  pose proof (compile_go_iter _ _ _ _ _ _ _ _ [] _ _ _ E Hi Hcl eq_refl (bfs_inv_init e) (binv_new e) (Nat.le_0_l _)) as X.
+  cbn in X. destruct X as [X1 [X2 _]]. rewrite (build_unchecked_states _ _ Eb). auto.
+Qed.
+
+Theorem try_compile_states_are_iter fuel fuel' m e m1 l n m2 A :
+  iter_derivatives fuel m e = Some (m1, l) -> cls_ok l ->
+  compile_with_bound fuel' m e (Some n) = Some (m2, Some A) ->
+  num_states A = length l /\ m2 = m1.
+Proof.
+  intros Hi Hcl H. destruct n as [|n]; [discriminate|]. unfold compile_with_bound in H.
+  destruct (compile_go fuel' m [e] [e] (b_new (rid e)) 0 (S n)) as [[m3 [b|]]|] eqn:E; try discriminate.
+  destruct (build_unchecked b) as [a|] eqn:Eb; [|discriminate]. inversion H; subst.
+  pose proof (compile_go_iter _ _ _ _ _ _ _ _ [] _ _ _ E Hi Hcl eq_refl (bfs_inv_init e) (binv_new e) (Nat.le_0_l _)) as X.
+  cbn in X. destruct X as [X1 [X2 _]]. rewrite (build_unchecked_states _ _ Eb). auto.
+Qed.
+
+Theorem try_compile_some_iff fuel fuel' m e m1 l n m2 oa :
+  iter_derivatives fuel m e = Some (m1, l) -> cls_ok l ->
+  compile_with_bound fuel' m e (Some n) = Some (m2, oa) ->
+  ((exists A, oa = Some A) <-> length l <= n).
+Proof.
+  intros Hi Hcl H. destruct n as [|n].
+  - cbn in H. inversion H; subst. destruct (iter_first _ _ _ _ _ Hi) as [t ->]. cbn [length].
+    split; [intros [A HA]; discriminate|lia].
+  - unfold compile_with_bound in H.
+    destruct (compile_go fuel' m [e] [e] (b_new (rid e)) 0 (S n)) as [[m3 ob]|] eqn:E; [|discriminate].
+    pose proof (compile_go_iter _ _ _ _ _ _ _ _ [] _ _ _ E Hi Hcl eq_refl (bfs_inv_init e) (binv_new e) (Nat.le_0_l _)) as X.
+    cbn in X. destruct ob as [b|].
+    + destruct (build_unchecked b) as [a|]; [|discriminate]. inversion H; subst.
+      destruct X as [_ [_ X]]. split; [intros _; exact X|eauto].
+    + inversion H; subst. split; [intros [A HA]; discriminate|lia].
+Qed.
+
+(* compile(e) never fails when the enumeration terminates: with the iterator's fuel the loop ends
+   with a builder of |l| states in the iterator's final manager; what is left is build_unchecked *)
+Theorem compile_of_iter fuel m e m1 l :
+  iter_derivatives fuel m e = Some (m1, l) -> cls_ok l ->
+  exists b, length (bstates b) = length l /\
+    compile_with_bound fuel m e None =
+      match build_unchecked b with Some a => Some (m1, Some a) | None => None end.
+Proof.
+  intros Hi Hcl.
+  pose proof (compile_go_of_iter fuel m [e] [e] (b_new (rid e)) 0 (S fuel) [] m1 l Hi Hcl eq_refl
+                (bfs_inv_init e) (binv_new e) (Nat.le_0_l _)) as X.
+  destruct (iter_count_fuel _ _ _ _ _ Hi) as [Hlt _].
+  assert (E : Nat.leb (length l) (S fuel) = true) by (apply Nat.leb_le; lia).
+  rewrite E in X. destruct X as [b [X1 X2]]. exists b. split; [exact X2|].
+  unfold compile_with_bound. rewrite X1. reflexivity.
+Qed.
+
+Theorem try_compile_of_iter fuel m e m1 l n :
+  iter_derivatives fuel m e = Some (m1, l) -> cls_ok l ->
+  if Nat.leb (length l) n
+  then exists b, length (bstates b) = length l /\
+         compile_with_bound fuel m e (Some n) =
+           match build_unchecked b with Some a => Some (m1, Some a) | None => None end
+  else exists m2, compile_with_bound fuel m e (Some n) = Some (m2, None).
+Proof.
+  intros Hi Hcl. destruct n as [|n].
+  - destruct (iter_first _ _ _ _ _ Hi) as [t ->]. cbn. eauto.
+  - pose proof (compile_go_of_iter fuel m [e] [e] (b_new (rid e)) 0 (S n) [] m1 l Hi Hcl eq_refl
+                (bfs_inv_init e) (binv_new e) (Nat.le_0_l _)) as X.
+    destruct (Nat.leb (length l) (S n)).
+    + destruct X as [b [X1 X2]]. exists b. split; [exact X2|]. unfold compile_with_bound. rewrite X1. reflexivity.
+    + destruct X as [m2 X]. exists m2. unfold compile_with_bound. rewrite X. reflexivity.
+Qed.
+
+(* ------------------------------------------------------------------------------------------ *)
+(** * get_string: the LabeledQueue (structural facts for C05) *)
+Open Scope N_scope.
+
+Lemma lq_find_app i l1 l2 :
+  lq_find i (l1 ++ l2) = match lq_find i l1 with Some x => Some x | None => lq_find i l2 end.
+Proof.
+  induction l1 as [|[n x] t IH]; cbn [app lq_find]; [reflexivity|].
+  destruct (rid n =? i); [reflexivity|exact IH].
+Qed.
+Lemma lq_find_some_iff i l : (exists x, lq_find i l = Some x) <-> In i (map rid (map fst l)).
+Proof.
+  induction l as [|[n x] t IH]; cbn [lq_find map fst In].
+  - split; [intros [x H]; discriminate|intros []].
+  - destruct (rid n =? i) eqn:E.
+    + apply N.eqb_eq in E. split; eauto.
+    + apply N.eqb_neq in E. rewrite IH. split; [auto|intros [H|H]; [contradiction|exact H]].
+Qed.
+
+(* predecessor-map invariant: the map is the root followed by entries (d, Pred(cid, pre)) where
+   pre was inserted earlier, d is new (by id) and d = class derivative of pre w.r.t. cid
+   according to m's cache *)
+Inductive lq_ok (m : mgr) (e : re) : lqmap -> Prop :=
+| lq_root : lq_ok m e [(e, None)]
+| lq_snoc mp d cid pre : lq_ok m e mp -> In pre (map fst mp) -> lq_find (rid d) mp = None ->
+    In cid (pclass_ids (rcls pre)) -> cderiv m pre cid d -> lq_ok m e (mp ++ [(d, Some (cid, pre))]).
+
+Lemma lq_ok_ext m m' e mp : cache_ext m m' -> lq_ok m e mp -> lq_ok m' e mp.
+Proof.
+  intros X H. induction H; [constructor|]. constructor; auto. eapply cderiv_ext; eauto.
+Qed.
+
+Lemma lq_ok_find m e mp : lq_ok m e mp -> forall x edge, In (x, edge) mp -> lq_find (rid x) mp = Some edge.
+Proof.
+  induction 1 as [|mp d cid pre H IH Hp Hn Hc Hd]; intros x edge Hi.
+  - destruct Hi as [Hi|[]]. inversion Hi; subst. cbn [lq_find]. rewrite N.eqb_refl. reflexivity.
+  - rewrite lq_find_app. apply in_app_or in Hi. destruct Hi as [Hi|[Hi|[]]].
+    + rewrite (IH _ _ Hi). reflexivity.
+    + inversion Hi; subst. rewrite Hn. cbn [lq_find]. rewrite N.eqb_refl. reflexivity.
+Qed.
+
+(* a labelled path r --cid--> ... ending in x, every edge answered by m's cache *)
+Inductive dpath (m : mgr) : re -> list (re * classid) -> re -> Prop :=
+| dp_nil r : dpath m r [] r
+| dp_cons r cid d p x : In cid (pclass_ids (rcls r)) -> cderiv m r cid d -> dpath m d p x ->
+    dpath m r ((r, cid) :: p) x.
+
+Lemma dpath_ext m m' r p x : cache_ext m m' -> dpath m r p x -> dpath m' r p x.
+Proof. intros X H. induction H; [constructor|]. econstructor; eauto. eapply cderiv_ext; eauto. Qed.
+Lemma dpath_dreach m e p x : forall r, dreach m e r -> dpath m r p x -> dreach m e x.
+Proof.
+  intros r Hr H. induction H as [|r cid d p x Hc Hd _ IH]; [exact Hr|].
+  apply IH. eapply dreach_step; eauto.
+Qed.
+
+Lemma path_go_more_fuel f : forall f' mp edge acc p,
+  path_go f mp edge acc = Some p -> (f <= f')%nat -> path_go f' mp edge acc = Some p.
+Proof.
+  induction f as [|f IH]; intros f' mp edge acc p H Hf; [discriminate|].
+  destruct f' as [|f']; [lia|]. cbn [path_go] in *. destruct edge as [[lbl node]|]; [|exact H].
+  destruct (lq_find (rid node) mp) as [e'|]; cbn [bind] in *; [|discriminate]. apply IH; [exact H|lia].
+Qed.
+
+(* path reconstruction terminates within the size of the map (fuel = number of entries inserted
+   up to the node, + 1) and returns a path from the root whose nodes are all in the map *)
+Lemma path_go_prefix m e mp : lq_ok m e mp -> forall rest x edge acc target,
+  In (x, edge) mp -> dpath m x acc target -> Forall (fun rc => In (fst rc) (map fst (mp ++ rest))) acc ->
+  exists p, path_go (S (length mp)) (mp ++ rest) edge acc = Some p /\ dpath m e p target /\
+            Forall (fun rc => In (fst rc) (map fst (mp ++ rest))) p.
+Proof.
+  induction 1 as [|mp d cid pre H IH Hp Hn Hc Hd]; intros rest x edge acc target Hi Hacc Hk.
+  - destruct Hi as [Hi|[]]. inversion Hi; subst. exists acc. cbn [path_go]. auto.
+  - rewrite <- app_assoc in *. apply in_app_or in Hi. destruct Hi as [Hi|[Hi|[]]].
+    + destruct (IH _ _ _ _ _ Hi Hacc Hk) as [p [P1 P2]]. exists p. split; [|exact P2].
+      eapply path_go_more_fuel; [exact P1|]. rewrite app_length. lia.
+    + inversion Hi; subst x edge. rewrite app_length. cbn [length]. rewrite Nat.add_1_r.
+      apply in_map_iff in Hp. destruct Hp as [[pre' edge'] [Ep Hp]]. cbn [fst] in Ep. subst pre'.
+      assert (F : lq_find (rid pre) (mp ++ [(d, Some (cid, pre))] ++ rest) = Some edge').
+      { rewrite lq_find_app, (lq_ok_find _ _ _ H _ _ Hp). reflexivity. }
+      remember (S (length mp)) as k. cbn [path_go]. rewrite F. cbn [bind]. subst k.
+      apply (IH _ _ _ _ _ Hp).
+      * econstructor; eauto.
+      * constructor; [|exact Hk]. cbn [fst]. rewrite map_app. apply in_or_app. left.
+        apply in_map_iff. exists (pre, edge'). auto.
+Qed.
+Lemma path_go_ok m e mp x edge : lq_ok m e mp -> In (x, edge) mp ->
+  exists p, path_go (S (length mp)) mp edge [] = Some p /\ dpath m e p x /\
+            Forall (fun rc => In (fst rc) (map fst mp)) p.
+Proof.
+  intros H Hi. destruct (path_go_prefix m e mp H [] x edge [] x Hi (dp_nil m x) (Forall_nil _)) as [p P].
+  rewrite app_nil_r in P. eauto.
+Qed.
+
+Lemma gs_push_ok e r : ids_desc r -> forall cids m q mp m1 q1 mp1,
+  gs_push m r cids q mp = Some (m1, q1, mp1) ->
+  (forall cid, In cid cids -> In cid (pclass_ids (rcls r))) ->
+  In r (map fst mp) -> lq_ok m e mp -> lq_ok m1 e mp1 /\ cache_ext m m1.
+Proof.
+  intros Hd. induction cids as [|cid t IH]; intros m q mp m1 q1 mp1 H Hc Hr Hok; cbn [gs_push] in H.
+  - inversion H; subst. split; [exact Hok|apply cache_ext_refl].
+  - destruct (cached_deriv r m cid) as [[m2 d]|] eqn:E; cbn [bind] in H; [|discriminate].
+    pose proof (cached_deriv_ext r m cid m2 d Hd E) as X1.
+    pose proof (cached_deriv_lookup r m cid m2 d E) as L1.
+    pose proof (lq_ok_ext _ _ _ _ X1 Hok) as Hok2.
+    assert (Hc' : forall c, In c t -> In c (pclass_ids (rcls r))) by (intros c Hi; apply Hc; right; exact Hi).
+    destruct (lq_find (rid d) mp) eqn:F.
+    + destruct (IH _ _ _ _ _ _ H Hc' Hr Hok2) as [A B]. split; [exact A|eapply cache_ext_trans; eauto].
+    + assert (Hok3 : lq_ok m2 e (mp ++ [(d, Some (cid, r))])).
+      { constructor; auto. apply Hc. left. reflexivity. }
+      assert (Hr3 : In r (map fst (mp ++ [(d, Some (cid, r))]))).
+      { rewrite map_app. apply in_or_app. left. exact Hr. }
+      destruct (IH _ _ _ _ _ _ H Hc' Hr3 Hok3) as [A B]. split; [exact A|eapply cache_ext_trans; eauto].
+Qed.
+
+(* the LabeledQueue visits like the BfsQueue: map keys = seen set, same pushes, same managers *)
+Lemma gs_push_push r : forall cids m q s mp, map fst mp = rev s ->
+  match push_all_derivs m r cids q s with
+  | Some (m1, q1, s1) => exists mp1, gs_push m r cids q mp = Some (m1, q1, mp1) /\ map fst mp1 = rev s1
+  | None => gs_push m r cids q mp = None
+  end.
+Proof.
+  induction cids as [|cid t IH]; intros m q s mp Hk; cbn [push_all_derivs gs_push].
+  - exists mp. auto.
+  - destruct (cached_deriv r m cid) as [[m2 d]|]; cbn [bind]; [|reflexivity].
+    assert (T : existsb (re_eqb d) s = match lq_find (rid d) mp with Some _ => true | None => false end).
+    { destruct (lq_find (rid d) mp) eqn:F.
+      - apply existsb_re_eqb. rewrite in_rev, <- map_rev, <- Hk. apply lq_find_some_iff. eauto.
+      - destruct (existsb (re_eqb d) s) eqn:X; [|reflexivity]. apply existsb_re_eqb in X.
+        rewrite in_rev, <- map_rev, <- Hk in X. apply lq_find_some_iff in X. destruct X as [x X]. congruence. }
+    rewrite T. destruct (lq_find (rid d) mp).
+    + apply IH. exact Hk.
+    + apply IH. rewrite map_app, Hk. reflexivity.
+Qed.
+
+Definition nonnull (x : re) : bool := negb (rnul x).
+
+Lemma gs_go_of_iter e f : forall m q s out mp m1 l,
+  iter_go f m q s out = Some (m1, l) -> Forall ids_desc l ->
+  map fst mp = rev s -> lq_ok m e mp -> bfs_inv q s out ->
+  exists m2 res l', gs_go f m q mp = Some (m2, res) /\ cache_ext m m2 /\ l = out ++ l' /\
+    match res with
+    | None => forallb nonnull l' = true
+    | Some p => exists pre x post, l' = pre ++ x :: post /\ forallb nonnull pre = true /\ rnul x = true /\
+                  dpath m2 e p x /\ Forall (fun rc => In (fst rc) l) p
+    end.
+Proof.
+  induction f as [|f IH]; intros m q s out mp m1 l H Hd Hk Hok Hb; [discriminate|].
+  pose proof (iter_go_prefix _ _ _ _ _ _ _ H) as [l0 Hl].
+  cbn [iter_go] in H. cbn [gs_go]. destruct q as [|r q].
+  - inversion H; subst m1. exists m, None, []. rewrite app_nil_r.
+    split; [reflexivity|]. split; [apply cache_ext_refl|]. split; [congruence|reflexivity].
+  - destruct Hb as [Hs Hn].
+    assert (Hkeys : forall x, In x (map fst mp) -> In x l).
+    { intros x Hx. rewrite Hk, Hs, rev_involutive in Hx. rewrite Hl.
+      apply in_app_or in Hx. apply in_or_app. destruct Hx as [Hx|Hx]; [left; exact Hx|].
+      right. apply in_or_app. left. exact Hx. }
+    assert (Hr : In r (map fst mp)).
+    { rewrite Hk, Hs, rev_involutive. apply in_or_app. right. left. reflexivity. }
+    destruct (rnul r) eqn:Er.
+    + apply in_map_iff in Hr. destruct Hr as [[r' edge] [E' Hr]]. cbn [fst] in E'. subst r'.
+      rewrite (lq_ok_find _ _ _ Hok _ _ Hr). cbn [bind].
+      destruct (path_go_ok m e mp r edge Hok Hr) as [p [P1 [P2 P3]]]. rewrite P1. cbn [bind].
+      exists m, (Some p), (r :: q ++ l0). split; [reflexivity|]. split; [apply cache_ext_refl|].
+      split; [exact Hl|]. exists [], r, (q ++ l0). split; [reflexivity|]. split; [reflexivity|].
+      split; [exact Er|]. split; [exact P2|].
+      rewrite Forall_forall in *. intros rc Hrc. apply Hkeys. apply P3. exact Hrc.
+    + destruct (push_all_derivs m r (pclass_ids (rcls r)) q s) as [[[m' q1] s1]|] eqn:Ep; cbn [bind] in H; [|discriminate].
+      pose proof (gs_push_push r (pclass_ids (rcls r)) m q s mp Hk) as G. rewrite Ep in G.
+      destruct G as [mp1 [G1 G2]]. rewrite G1. cbn [bind].
+      assert (Hdr : ids_desc r).
+      { rewrite Forall_forall in Hd. apply Hd. rewrite Hl. apply in_or_app. right. left. reflexivity. }
+      destruct (gs_push_ok e r Hdr _ _ _ _ _ _ _ G1 (fun c h => h) Hr Hok) as [Hok1 X1].
+      pose proof (push_all_bfs_inv _ _ _ _ _ _ _ _ _ (conj Hs Hn) Ep) as Hb1.
+      destruct (IH _ _ _ _ _ _ _ H Hd G2 Hok1 Hb1) as [m2 [res [l' [R1 [R2 [R3 R4]]]]]].
+      exists m2, res, (r :: l'). split; [exact R1|]. split; [eapply cache_ext_trans; eauto|].
+      split; [rewrite R3, <- app_assoc; reflexivity|].
+      destruct res as [p|].
+      * destruct R4 as [pre [x [post [A [B C]]]]]. exists (r :: pre), x, post.
+        split; [rewrite A; reflexivity|]. split; [|exact C].
+        cbn [forallb]. unfold nonnull at 1. rewrite Er. exact B.
+      * cbn [forallb]. unfold nonnull at 1. rewrite Er. exact R4.
+Qed.
+
+Lemma pick_in_class_ids p c : pwf p -> In c (pclass_ids p) -> exists x, ppick p c = Some x /\ good x.
+Proof.
+  intros Hp Hc. apply (pclass_ids_spec p c Hp) in Hc. apply (pvalid_iff p c Hp) in Hc.
+  destruct (ppick_spec p c Hp Hc) as [x [H1 [H2 _]]]. eauto.
+Qed.
+
+Lemma pick_all_path m l : cls_ok l -> forall p r x, dpath m r p x -> Forall (fun rc => In (fst rc) l) p ->
+  exists w, pick_all p = Some w /\ goodw w.
+Proof.
+  intros Hcl p r x H. induction H as [|r cid d p x Hc _ _ IH]; intros Hp.
+  - exists []. split; [reflexivity|constructor].
+  - inversion Hp as [|? ? Hr Hp']; subst. cbn [fst] in Hr. destruct (IH Hp') as [w [W1 W2]].
+    unfold cls_ok in Hcl. rewrite Forall_forall in Hcl.
+    destruct (pick_in_class_ids (rcls r) cid (Hcl r Hr) Hc) as [c [C1 C2]].
+    exists (c :: w). cbn [pick_all]. rewrite C1, W1. cbn [bind]. split; [reflexivity|constructor; auto].
+Qed.
+
+Lemma clamp_good w : goodw (map (fun c => if c <=? MAXC then c else REPLC) w).
+Proof.
+  unfold goodw. rewrite Forall_forall. intros x Hx. apply in_map_iff in Hx. destruct Hx as [c [E _]].
+  subst x. unfold good. destruct (c <=? MAXC) eqn:Ec; [apply N.leb_le; exact Ec|]. unfold REPLC, MAXC. lia.
+Qed.
+Lemma clamp_id w : goodw w -> map (fun c => if c <=? MAXC then c else REPLC) w = w.
+Proof.
+  induction 1 as [|c t Hc _ IH]; [reflexivity|]. cbn [map]. rewrite IH.
+  unfold good in Hc. apply N.leb_le in Hc. rewrite Hc. reflexivity.
+Qed.
+
+(* any string get_string returns is a well-formed SMT string (final clamp of From<Vec<u32>>) *)
+Theorem get_string_good fuel m e m' w : get_string fuel m e = Some (m', Some w) -> goodw w.
+Proof.
+  unfold get_string. intros H.
+  destruct (gs_go fuel m [e] [(e, None)]) as [[m1 [p|]]|]; cbn [bind] in H; try discriminate.
+  destruct (pick_all p); cbn [bind] in H; [|discriminate]. inversion H; subst. apply clamp_good.
+Qed.
+
+(* Under completion of the enumeration, get_string completes on the same fuel without panicking;
+   it answers None exactly when no enumerated term is nullable; otherwise it returns the picks
+   along a cache-answered path from e to the first nullable term of the enumeration. *)
+Theorem get_string_of_iter fuel m e m1 l :
+  iter_derivatives fuel m e = Some (m1, l) -> Forall ids_desc l -> cls_ok l ->
+  exists m2 res, get_string fuel m e = Some (m2, res) /\ cache_ext m m2 /\
+    match res with
+    | None => forallb nonnull l = true
+    | Some w => exists p pre x post, l = pre ++ x :: post /\ forallb nonnull pre = true /\ rnul x = true /\
+                  dpath m2 e p x /\ pick_all p = Some w /\ goodw w
+    end.
+Proof.
+  intros H Hd Hcl.
+  destruct (gs_go_of_iter e fuel m [e] [e] [] [(e, None)] m1 l H Hd eq_refl (lq_root m e) (bfs_inv_init e))
+    as [m2 [res [l' [R1 [R2 [R3 R4]]]]]].
+  cbn [app] in R3. subst l'. unfold get_string. rewrite R1. cbn [bind]. destruct res as [p|].
+  - destruct R4 as [pre [x [post [A [B [C [D E]]]]]]].
+    destruct (pick_all_path m2 l Hcl p e x D E) as [w [W1 W2]]. rewrite W1. cbn [bind].
+    exists m2, (Some (map (fun c => if c <=? MAXC then c else REPLC) w)). split; [reflexivity|].
+    split; [exact R2|]. exists p, pre, x, post. rewrite (clamp_id w W2). auto 10.
+  - exists m2, None. auto.
+Qed.
+
+Theorem get_string_none_iff_no_nullable_reached fuel m e m1 l m2 res :
+  iter_derivatives fuel m e = Some (m1, l) -> Forall ids_desc l -> cls_ok l ->
+  get_string fuel m e = Some (m2, res) ->
+  (res = None <-> forall x, In x l -> rnul x = false).
+Proof.
+  intros H Hd Hcl G. destruct (get_string_of_iter _ _ _ _ _ H Hd Hcl) as [m2' [res' [G' [_ R]]]].
+  rewrite G in G'. inversion G'; subst m2' res'. destruct res as [w|].
+  - destruct R as [p [pre [x [post [A [_ [C _]]]]]]]. split; [discriminate|].
+    intros Hall. rewrite (Hall x) in C; [discriminate|]. rewrite A. apply in_or_app. right. left. reflexivity.
+  - split; [|reflexivity]. intros _ x Hx. rewrite forallb_forall in R. specialize (R x Hx).
+    unfold nonnull in R. destruct (rnul x); [discriminate|reflexivity].
+Qed.
